@@ -15,6 +15,7 @@ import (
 	"github.com/zenon-network/go-zenon/common/db"
 	"github.com/zenon-network/go-zenon/common/types"
 	"github.com/zenon-network/go-zenon/rpc/api"
+	"github.com/zenon-network/go-zenon/vm/embedded/definition"
 
 	"verifharness/pbt"
 	"verifharness/sim"
@@ -391,11 +392,28 @@ func TestC14(t *testing.T) {
 			model.afterMomentum(a, users)
 			c.Class("momentum-confirming-other-blocks")
 		}
+		everProducing := map[types.Address]bool{}
 		inv := func() {
 			if h.Dead || h2.Dead {
 				return
 			}
+			// an account that has become the producing address of a pillar (UpdatePillar, Register) gets blocks from the
+			// pillar worker like the genesis pillars' accounts: structural checks only, the model adopts what it holds
+			producing := map[types.Address]bool{}
+			if list, err := definition.GetPillarsList(a.Chain.GetFrontierAccountStore(types.PillarContract).Storage(), false, definition.AnyPillarType); err == nil {
+				for _, p := range list {
+					producing[p.BlockProducingAddress] = true
+				}
+			}
 			for _, u := range users {
+				if producing[u] {
+					everProducing[u] = true
+				}
+				if everProducing[u] {
+					c14structure(c, a, u, fmt.Sprintf("momentum %d", a.Height()))
+					model.resync(a, []types.Address{u})
+					continue
+				}
 				got := c14structure(c, a, u, fmt.Sprintf("momentum %d", a.Height()))
 				want := model.get(u).list
 				if c14listString(got) != c14listString(want) {
